@@ -32,3 +32,22 @@ Example C11_block_force_push :
   let w := {| w_log := [WEPolicy (pol_g [GBlockForce [x67] [[x2a]]]); WERef mainref 3%N 4%N; WERef mainref 2%N 4%N]; w_commits := commits4 |} in
   verify_full w mainref = VFail VEViolation.        (* 2 is not a descendant of 3 *)
 Proof. vm_compute. reflexivity. Qed.
+
+(** C11_refuted at the level of whole histories (finding K14).  The entry-level theorem above does
+    not lift: with a global rule declared (here one that does not even match the branch) an
+    authorization envelope without signatures makes entry 3 a violation; revoked and followed by a
+    tree-same "fix" that nobody authorised (K5), the history verifies - while the delegation rules
+    alone accept entry 3, so its revocation leaves the unauthorised entry 4 to be rejected. *)
+Definition commits_k14 : list (N * cinfo) :=
+  [ (1%N, {| ci_tree := 1%N; ci_parents := [] |}); (2%N, {| ci_tree := 2%N; ci_parents := [1%N] |});
+    (3%N, {| ci_tree := 3%N; ci_parents := [2%N] |}); (4%N, {| ci_tree := 2%N; ci_parents := [3%N] |}) ].
+Definition log_k14 (ps : pstate) : list wentry :=
+  [ WEPolicy ps; WERef mainref 2%N 4%N;
+    WEAttest [ {| az_ref := mainref; az_from := 2%N; az_to := 3%N; az_path_ref := mainref; az_path_from := 2%N; az_path_to := 3%N; az_signers := [] |} ];
+    WERef mainref 3%N 4%N; WERef mainref 4%N 3%N; WEAnn [3] true ].
+Theorem C11_history_level_refuted_K14 :
+  let tags := [x67;x69;x74;x3a;x72;x65;x66;x73;x2f;x74;x61;x67;x73;x2f;x2a] in      (* git:refs/tags/* *)
+  verify_full {| w_log := log_k14 (pol_g [GThreshold [x67] [tags] 3]); w_commits := commits_k14 |} mainref = VTip 4%N /\
+  verify_full {| w_log := log_k14 (pol_g []); w_commits := commits_k14 |} mainref = VFail VEViolation.
+Proof. vm_compute. split; reflexivity. Qed.
+Print Assumptions C11_history_level_refuted_K14.
